@@ -82,7 +82,10 @@ KINDS = {"ping": ping_scn, "chan": chan_scn, "exec": exec_scn, "signal": signal_
 
 
 def gen(seed, n, kind):
-    return [KINDS[kind](random.Random(seed * 7919 + i), "%s%d_%d" % (kind[0], seed, i)) for i in range(n)]
+    out = [KINDS[kind](random.Random(seed * 7919 + i), "%s%d_%d" % (kind[0], seed, i)) for i in range(n)]
+    for s in out:
+        s["final_dispatches"] = 12      # enough to drain any queue these scripts can build, even at batch limit 1
+    return out
 
 
 if __name__ == "__main__":
